@@ -444,6 +444,10 @@ func (s *programState) sendAllToAccount(accountLiteral parser.ValueExpr, ovedraf
 
 	// we sent balance+overdraft
 	sentAmt := new(big.Int).Add(balance, ovedraft)
+	// an account that is already below its limit has nothing to give
+	if sentAmt.Cmp(big.NewInt(0)) == -1 {
+		sentAmt.Set(big.NewInt(0))
+	}
 	s.pushSender(*account, sentAmt)
 	return sentAmt, nil
 }
@@ -531,6 +535,10 @@ func (s *programState) trySendingToAccount(accountLiteral parser.ValueExpr, amou
 
 		// that's the amount we are allowed to send (balance + overdraft)
 		safeSendAmt := new(big.Int).Add(balance, overdraft)
+		// an account that is already below its limit has nothing to give
+		if safeSendAmt.Cmp(big.NewInt(0)) == -1 {
+			safeSendAmt.Set(big.NewInt(0))
+		}
 		actuallySentAmt = utils.MinBigInt(safeSendAmt, amount)
 	}
 
